@@ -94,9 +94,10 @@ PROPS = {
                    'the executable SHA-256 in Crypto/Sha256.v is validated against crypto/sha256 by this very comparison'],
    'trusted_base': ['Crypto/Sha256.v uses primitive Uint63 operations under vm_compute (correspondence only; no theorem unfolds it except the two closed Examples)'],
  },
- 'C17': {'runs': runs([{'family': 'address', 'n': 2400, 'shards': 16}], [{'family': 'address', 'n': 60000, 'shards': 64}]),
+ 'C17': {'runs': runs([{'family': 'address', 'n': 2400, 'shards': 16}, {'family': 'bridge', 'n': 160, 'shards': 16, 'param': 'proj=C17,ops=45', 'tag': '1'}],
+                      [{'family': 'address', 'n': 60000, 'shards': 64}, {'family': 'bridge', 'n': 3000, 'shards': 64, 'param': 'proj=C17,ops=70', 'tag': '1'}]),
          'monitor_props': ['C17'],
-         'rule': 'deposit addresses: key type {ECDSA, Schnorr; valid, short, bad prefix, off-curve} x version {0,1} x network {4 configured} x EVM address / magic prefix lengths, through the builders AND Query/DepositAddress of a real keeper, then the script a wallet derives from the returned string is fed to the verifiers with the same and with another key / EVM address; verifiers on independently built genuine scripts with 8 mutations; withdrawal address strings of 12 kinds (p2pkh, p2sh, p2wpkh, p2wsh, p2tr, non-standard witness programs v0..16 x 8 lengths, wrong checksum flavour, p2pk hex, bad base58 lengths / versions, random bytes, leading zeros) from 5 source networks under 4 configured networks with 9 string mutations; distinct = distinct (kind, mutation, outcome)',
+         'rule': BRIDGE_RULE + ' (projection: deposits as VerifyDeposit accepts them incl. version-1 transactions with three outputs and near-miss scripts, withdrawal address strings incl. white-space wrapped ones) ; deposit addresses: key type {ECDSA, Schnorr; valid, short, bad prefix, off-curve} x version {0,1} x network {4 configured} x EVM address / magic prefix lengths, through the builders AND Query/DepositAddress of a real keeper, then the script a wallet derives from the returned string is fed to the verifiers with the same and with another key / EVM address; verifiers on independently built genuine scripts with 8 mutations; withdrawal address strings of 12 kinds (p2pkh, p2sh, p2wpkh, p2wsh, p2tr, non-standard witness programs v0..16 x 8 lengths, wrong checksum flavour, p2pk hex, bad base58 lengths / versions, random bytes, leading zeros) from 5 source networks under 4 configured networks with 9 string mutations; distinct = distinct (kind, mutation, outcome)',
          'assumptions': ['SHA-256 / HASH160 / the taproot tweak are abstract functions with fixed output length in the theorems; "for no other" is concluded up to an exhibited collision', 'elliptic-curve facts (x-only key parses, tweaked output key, HASH160) are data supplied by the harness from the real libraries',
                          'observation outside the property: btcd decodes a witness-v1 address with a 20-byte program (non-standard) as P2WPKH; counted in the distribution, not a violation of the property as stated'],
          'partial': 'the segwit string codec is proved end to end (C17_bech32_round_trip with the checksum algebra, C17_regroup_round_trip, C17_segwit_address_round_trip); the base58check codec of legacy withdrawal addresses is validated byte-exactly by the differential run and the decode-oracle monitor, not by a theorem'},
